@@ -45,6 +45,8 @@ def run(repo, rep):
     rep.run_borrowed(_c02, {"C02-w": "C12-p"}, repo)
     rep.clause("C12-q", "what an NPU TRANSPOSE writes stays inside its OFM: the strides whose H and W components are exchanged are computed from the OFM's real shape (operator shape with width and height exchanged)")
     rule_transpose_ofm_strides(repo, rep)
+    rep.clause("C12-r", "the console's total-memory line prints the allocator total in KiB, nothing coarser (expression and unit of the one 'Total .. used' line)")
+    rule_console_total_resolution(repo, rep)
     from . import c08 as _c08
 
     # the slice size recorded for the double buffers covers all cores (borrowed from the original lender: nested borrows are not replayed)
@@ -478,3 +480,22 @@ def rule_transpose_ofm_strides(repo, rep):
             raise AnalysisError(f"create_feature_map: shape expression `{txt[:80]}` of the TRANSPOSE branch not recognised")
     rep.check(ok, "C12-q", site, "the strides exchanged for a TRANSPOSE are computed from the OFM's real shape (batch, width, height, depth of the operator shape)",
               why + ": row pitch of the IFM shape is used for the OFM - for W > H the stream writes beyond the tensor and the reported arena")
+
+
+def rule_console_total_resolution(repo, rep):
+    """(r) the console's 'Total <memory> used' line is the figure a user sizes the arena with. It prints the allocator total in KiB with two
+    decimals (resolution 10.24 bytes - the reviewed, documented presentation; the CSV holds the exact number). The printed expression is the
+    total divided by 1024 and nothing else: a further division (MiB) makes the printed figure fall short of the plan by kilobytes."""
+    m = repo.mod("stats_writer")
+    fn = m.func("print_performance_metrics_for_strat")
+    site = "ethosu/vela/stats_writer.py:print_performance_metrics_for_strat"
+    prints = [c for c in ast.walk(fn) if isinstance(c, ast.Call) and call_name(c) == "print" and c.args and isinstance(c.args[0], ast.JoinedStr) and "Total " in "".join(str(v.value) for v in c.args[0].values if isinstance(v, ast.Constant))
+              and any(isinstance(v, ast.FormattedValue) and "aug_label" in str(norm(v.value)) for v in c.args[0].values)
+              and any(isinstance(v, ast.FormattedValue) and "memory_used" in str(norm(v.value)) or (isinstance(v, ast.FormattedValue) and isinstance(v.value, ast.Name) and v.value.id in ("used", "size", "total")) for v in c.args[0].values)]
+    if len(prints) != 1:
+        raise AnalysisError(f"print_performance_metrics_for_strat: {len(prints)} 'Total .. used' lines")
+    vals = [v for v in prints[0].args[0].values if isinstance(v, ast.FormattedValue) and "aug_label" not in str(norm(v.value))]
+    unit = "".join(str(v.value) for v in prints[0].args[0].values if isinstance(v, ast.Constant))
+    ok = len(vals) == 1 and str(norm(vals[0].value)) in ("memory_used[mem_area] / 1024.0", "memory_used[mem_area] / 1024") and unit.rstrip().endswith("KiB")
+    rep.check(ok, "C12-r", site, "the total is printed as memory_used / 1024 in KiB (two decimals: 10.24-byte resolution)",
+              f"prints `{[str(norm(v.value)) for v in vals]}` with unit text `{unit.strip()[-12:]}`: a coarser unit drops kilobytes - 1073152 bytes is shown as 1.02 MiB = 1069547 bytes, less than the plan needs")
